@@ -117,6 +117,13 @@ def one_case(arg):
             pos = sorted(i for i, e in enumerate(local) if e in seq)
             for i, e in zip(pos, seq):
                 local[i] = e
+        if cli_safe and rng.random() < 0.35:
+            # two groups whose symbols differ only in the case of letters (subsection names are case-sensitive in git)
+            a_, b_ = rng.choice([("Team", "team"), ("My Group", "my group"), ("tags.rel", "tags.REL"), ("a.b", "A.b"), ("x", "X")])
+            for e in [("refgroup", a_, "include", rng.choice(["refs/tags", "refs/remotes/origin"])),
+                      ("refgroup", b_, "include", rng.choice(["refs/heads", "refs/misc"])),
+                      ("refgroup", b_, "name", "lower label")]:
+                local.insert(rng.randint(0, len(local)), e)
         text_local = render(local)
         used = ["local"]
         if rng.random() < 0.4:
@@ -186,7 +193,7 @@ def one_case(arg):
         # a prefix ending in '.' has a documented special meaning in GetConfig (component already closed), so the
         # plain "key == P or key starts with P + '.'" oracle does not apply to it: such groups are judged at CLI level
         prefixes = [b"refgroup"] + [b"refgroup." + s for s in syms if not s.endswith(b".")] + \
-            [b"refgroupx", b"core", b"refgroup.a", b"refgroup.tags"]
+            [b"refgroupx", b"user", b"alias", b"refgroup.a", b"refgroup.tags"]
         prefixes = [x for x in dict.fromkeys(prefixes) if _utf8(x)]
         denv = dict(env)
         case = {"id": idx, "dir": work, "prefixes": [x.decode() for x in prefixes], "env": denv}
